@@ -559,6 +559,72 @@ theorem described_datainfo_equiv (pre : Predef) (n : Node J V) (hwf : Node.WF pr
 theorem always_exported : "datainfo" ∈ Frappy.Generated.C06.paramAlways ∧ "readonly" ∈ Frappy.Generated.C06.paramAlways ∧
     "datainfo" ∈ Frappy.Generated.C06.commandAlways := by decide +kernel
 
+/-! ### interface class and features -/
+
+theorem first_base (base : List String) (l : List String) :
+    match (l.filter (fun c => base.contains c)).take 1 with
+    | [] => ∀ y ∈ l, y ∉ base
+    | [x] => x ∈ base ∧ ∃ before after, l = before ++ x :: after ∧ ∀ y ∈ before, y ∉ base
+    | _ => False := by
+  induction l with
+  | nil => simp
+  | cons a as ih =>
+    by_cases ha : base.contains a = true
+    · have : ((a :: as).filter (fun c => base.contains c)).take 1 = [a] := by
+        rw [List.filter_cons, if_pos ha]; rfl
+      rw [this]
+      exact ⟨by simpa using ha, [], as, rfl, by simp⟩
+    · have hf : ((a :: as).filter (fun c => base.contains c)).take 1 = (as.filter (fun c => base.contains c)).take 1 := by
+        rw [List.filter_cons, if_neg ha]
+      rw [hf]
+      have han : a ∉ base := by simpa using ha
+      generalize (as.filter (fun c => base.contains c)).take 1 = res at ih ⊢
+      match res, ih with
+      | [], ih => intro y hy; rcases List.mem_cons.1 hy with rfl | h; exact han; exact ih y h
+      | [x], ⟨hx, before, after, heq, hb⟩ =>
+        refine ⟨hx, a :: before, after, by rw [heq]; rfl, ?_⟩
+        intro y hy; rcases List.mem_cons.1 hy with rfl | h; exact han; exact hb y h
+      | _ :: _ :: _, ih => exact ih
+
+/-- **class_props_derived.**  What the model derives from the class chain — the interface class and the features —
+satisfies the clause "the interface class and features match the implementing class": the interface class is the
+highest SECoP base class of the chain (or none), the features are exactly the direct `Feature` mixins. -/
+theorem class_props_derived (base : List String) (mro : List ClassInfo) :
+    ClassPropsOK base mro (interfaceClassesOf base mro) (featuresOf mro) := by
+  refine ⟨?_, rfl⟩
+  have h := first_base base (mro.map (·.name))
+  unfold interfaceClassesOf
+  generalize ((mro.map (·.name)).filter (fun c => base.contains c)).take 1 = res at h ⊢
+  match res, h with
+  | [], h => intro c hc; exact h c.name (List.mem_map_of_mem hc)
+  | [x], h => exact h
+  | _ :: _ :: _, h => exact h
+
+/-- the monitor accepts a report only if the clause holds -/
+theorem classPropsB_sound (base : List String) (mro : List ClassInfo) (ic feats : List String)
+    (h : classPropsB base mro ic feats = true) : ClassPropsOK base mro ic feats := by
+  unfold classPropsB at h
+  simp only [Bool.and_eq_true, decide_eq_true_eq] at h
+  rw [h.1, h.2]; exact class_props_derived base mro
+
+/-- at most one interface class is reported; a feature is reported iff a class of the chain with that name mixes in `Feature` directly -/
+theorem interface_le_one (base : List String) (mro : List ClassInfo) : (interfaceClassesOf base mro).length ≤ 1 := by
+  unfold interfaceClassesOf; simp [List.length_take]; omega
+
+theorem features_iff (mro : List ClassInfo) (f : String) :
+    f ∈ featuresOf mro ↔ ∃ c ∈ mro, c.isFeature = true ∧ c.name = f := by
+  unfold featuresOf; simp [List.mem_map, List.mem_filter, and_assoc]
+
+/-- table fact: the generated list of SECoP base classes has no duplicates (re-checked when modulebase.py changes) -/
+theorem base_classes_nodup : Frappy.Generated.C06.secopBaseClasses.Nodup := by decide +kernel
+
+/-- non-vacuity: a Drivable with a feature mixin and a non-direct feature subclass -/
+example : interfaceClassesOf Frappy.Generated.C06.secopBaseClasses
+      [⟨"GenB", false⟩, ⟨"FeatSub", false⟩, ⟨"FeatA", true⟩, ⟨"Drivable", false⟩, ⟨"Writable", false⟩, ⟨"Readable", false⟩,
+       ⟨"Module", false⟩, ⟨"object", false⟩] = ["Drivable"] ∧
+    featuresOf [⟨"GenB", false⟩, ⟨"FeatSub", false⟩, ⟨"FeatA", true⟩, ⟨"Drivable", false⟩] = ["FeatA"] := by
+  decide +kernel
+
 /-! ### non-vacuity (the node of `Props.C04.Example`) -/
 
 open Frappy.Props.C04.Example in
